@@ -112,7 +112,7 @@ func (bkt *Bucket) buildHintFromData(chunkID int, start uint32) (err error) {
 		item := newHintItem(khash, p.Ver, vhash, Position{0, offset}, string(rec.Key))
 		bkt.hints.setItem(item, chunkID, rec.Payload.RecSize)
 	}
-	bkt.hints.trydump(chunkID, true)
+	bkt.hints.trydumpExclusive(chunkID, true)
 	debug.FreeOSMemory()
 	return
 }
